@@ -10,6 +10,17 @@ from .exceptions import DecodeError
 from .gn_address import GNAddress
 
 
+def _to_twos_complement(value: int, bits: int) -> int:
+    """Two's complement representation of a signed integer on ``bits`` bits."""
+    return value & ((1 << bits) - 1)
+
+
+def _from_twos_complement(value: int, bits: int) -> int:
+    """Signed integer represented by the ``bits``-bit two's complement ``value``."""
+    value &= (1 << bits) - 1
+    return value - (1 << bits) if value >> (bits - 1) else value
+
+
 @dataclass(frozen=True)
 class TST:
     """
@@ -476,10 +487,10 @@ class LongPositionVector:
         return (
             (self.gn_addr.encode_to_int() << 32 * 4)
             | (self.tst.encode() << 32 * 3)
-            | (self.latitude << 32 * 2)
-            | (self.longitude << 32)
+            | (_to_twos_complement(self.latitude, 32) << 32 * 2)
+            | (_to_twos_complement(self.longitude, 32) << 32)
             | (self.pai << 31)
-            | (self.s << 16)
+            | (_to_twos_complement(self.s, 15) << 16)
             | self.h
         ).to_bytes(24, byteorder="big")
 
@@ -495,10 +506,10 @@ class LongPositionVector:
         return (
             (self.gn_addr.encode_to_int() << 32 * 4)
             | (self.tst.encode() << 32 * 3)
-            | (self.latitude << 32 * 2)
-            | (self.longitude << 32)
+            | (_to_twos_complement(self.latitude, 32) << 32 * 2)
+            | (_to_twos_complement(self.longitude, 32) << 32)
             | (int(self.pai) << 31)
-            | (self.s << 16)
+            | (_to_twos_complement(self.s, 15) << 16)
             | self.h
         )
 
@@ -517,10 +528,10 @@ class LongPositionVector:
         data_as_int = int.from_bytes(data[0:24], byteorder="big")
         gn_addr = GNAddress.decode((data_as_int >> 32 * 4).to_bytes(8, byteorder="big"))
         tst = TST.decode(data_as_int >> 32 * 3)
-        latitude = (data_as_int >> 32 * 2) & 0xFFFFFFFF
-        longitude = (data_as_int >> 32) & 0xFFFFFFFF
+        latitude = _from_twos_complement(data_as_int >> 32 * 2, 32)
+        longitude = _from_twos_complement(data_as_int >> 32, 32)
         pai = bool((data_as_int >> 31) & 0x1)
-        s = (data_as_int >> 16) & 0x7FFF
+        s = _from_twos_complement(data_as_int >> 16, 15)
         h = data_as_int & 0xFFFF
         return cls(
             gn_addr=gn_addr,
@@ -714,8 +725,8 @@ class ShortPositionVector:
         return (
             (self.gn_addr.encode_to_int() << 32 * 3)
             | (self.tst.encode() << 32 * 2)
-            | (self.latitude << 32 * 1)
-            | self.longitude
+            | (_to_twos_complement(self.latitude, 32) << 32 * 1)
+            | _to_twos_complement(self.longitude, 32)
         ).to_bytes(20, byteorder="big")
 
     def encode_to_int(self) -> int:
@@ -730,8 +741,8 @@ class ShortPositionVector:
         return (
             (self.gn_addr.encode_to_int() << 32 * 3)
             | (self.tst.encode() << 32 * 2)
-            | (self.latitude << 32 * 1)
-            | self.longitude
+            | (_to_twos_complement(self.latitude, 32) << 32 * 1)
+            | _to_twos_complement(self.longitude, 32)
         )
 
     @classmethod
@@ -747,8 +758,8 @@ class ShortPositionVector:
         data_int = int.from_bytes(data, byteorder="big")
         gn_addr = GNAddress.decode((data_int >> 32 * 3).to_bytes(8, byteorder="big"))
         tst = TST.decode(data_int >> 32 * 2)
-        latitude = (data_int >> 32 * 1) & 0xFFFFFFFF
-        longitude = data_int & 0xFFFFFFFF
+        latitude = _from_twos_complement(data_int >> 32 * 1, 32)
+        longitude = _from_twos_complement(data_int, 32)
         return cls(gn_addr=gn_addr, tst=tst, latitude=latitude, longitude=longitude)
 
     def __eq__(self, __o: object) -> bool:
